@@ -102,6 +102,23 @@ def check(tier, seed):
             impl = G.impl_ubx(None, ops)
             cases.append(Case('ubx-filter-at-last-byte', G.ubx_cmd(None, ops), impl,
                               {'frame_hex': C.hexs(f), 'cut': cut, 'filter_before': f1, 'filter_at_end': f2}, kind='filter-midframe'))
+        # restart() / filter change / empty_queue at every offset of the material that FOLLOWS a queued frame (the queued
+        # packet, also one already handed out, must keep its payload)
+        for _ in range(25 if tier == 'quick' else 800):
+            c, i = rng.choice(G.CIDS)
+            f = G.frame(c, i, G.rand_payload(rng, rng.choice([1, 2, 5, 40])))
+            nxt = rng.choice([G.frame(c, i, b'\x09\x08'), b'\xb5', b'\xb5\xb5\x62', G.frame(5, 1, b'\x06\x01')[:-1], G.rand_junk(rng)[0] + b'\xb5'])
+            for cut in sorted(set([0, 1, 2, 3, 5, len(nxt) - 1, len(nxt)] + [rng.randrange(len(nxt) + 1)])):
+                if not 0 <= cut <= len(nxt):
+                    continue
+                mid = rng.choice([('R',), ('R',), ('F', (c, i)), ('FS', [(c, i), (5, 1)]), ('K',)])
+                ops = [('P', f), ('P', nxt[:cut]), mid, ('P', nxt[cut:]), ('K',), ('R',), ('K',), ('K',)]
+                impl = G.impl_ubx([(c, i), (5, 1)], ops)
+                desc = {'frame_hex': C.hexs(f), 'then': C.hexs(nxt), 'cut': cut, 'op_at_cut': mid[0], 'filter': [(c, i), (5, 1)]}
+                if impl.endswith('MUTATED-PACKET'):
+                    res.violation('a queued or handed-out packet was altered by restart / filter change / further parsing',
+                                  {'property': 'C11', 'input': desc, 'implementation_says': impl[:800]}, 'c11-mut2|' + mid[0])
+                cases.append(Case('ubx-op-after-queued-frame', G.ubx_cmd([(c, i), (5, 1)], ops), impl, desc, kind='after-queued/' + mid[0]))
         cid_sweep(res, rng, tier)
         res.exhaustive = tier == 'thorough'
         res.compare(cases)
